@@ -102,6 +102,8 @@ structure Listener where
   id : Nat
   filter : Option (List Name)
   rejects : Store → List Name → Bool
+  /-- a component deriving options: `some kw` = the handler calls `opts.update(**kw)` from inside (nested update) -/
+  act : Store → List Name → Option (List (Name × Val)) := fun _ _ => none
 
 /-- one call of a listener: who, the option values it could read, the `updated` argument -/
 structure Obs where
@@ -344,6 +346,132 @@ def runFrom (st : St) : List Op → St × List Obs
     (y.1, x.obs ++ y.2)
 
 def run (ops : List Op) : St × List Obs := runFrom St.empty ops
+
+
+/-! ### listener-issued (nested) updates
+
+`notifyW nested u s ls`: `changed.send(updated=u)` when handlers may call `opts.update` themselves.
+A handler that does not reject and whose `act` yields `kw` runs `nested s kw` (the nested `update`, one level
+deeper); its TypeError / KeyError are swallowed by the handler, its OptionsError propagates (the handler rejects).
+The store is threaded: later handlers see what earlier ones assigned. -/
+
+structure NRes where
+  opts : Store
+  out : Outcome
+  obs : List Obs
+  unknown : List (Name × Val) := []
+
+def notifyW (nested : Store → List (Name × Val) → NRes) (u : List Name) : Store → List Listener → Store × List Obs × Bool
+  | s, [] => (s, [], false)
+  | s, l :: ls =>
+    if concerned l u then
+      if l.rejects s u then (s, [⟨l.id, s, u⟩], true)
+      else
+        match l.act s u with
+        | none =>
+          let r := notifyW nested u s ls
+          (r.1, ⟨l.id, s, u⟩ :: r.2.1, r.2.2)
+        | some kw =>
+          let n := nested s kw
+          if n.out == .optionsError then (n.opts, ⟨l.id, s, u⟩ :: n.obs, true)
+          else
+            let r := notifyW nested u n.opts ls
+            (r.1, ⟨l.id, s, u⟩ :: (n.obs ++ r.2.1), r.2.2)
+    else notifyW nested u s ls
+
+/-- `update_known` on a store, with handlers that may issue nested updates through `nested`.
+    On rejection the WHOLE previous store `s` is restored (the snapshot is a deep copy of all options) and the
+    rollback notification starts from it. -/
+def coreUpdate (nested : Store → List (Name × Val) → NRes) (ls : List Listener) (s : Store)
+    (kw : List (Name × Val)) : NRes :=
+  let known := kw.filter (fun kv => hasKey s kv.1)
+  let unknown := kw.filter (fun kv => !hasKey s kv.1)
+  if known.isEmpty then ⟨s, .ok, [], unknown⟩
+  else if !allTyped s known then ⟨s, .typeError, [], []⟩
+  else
+    let updated := known.map (·.1)
+    let r1 := notifyW nested updated (assign s known) ls
+    if !r1.2.2 then ⟨r1.1, .ok, r1.2.1, unknown⟩
+    else
+      let r2 := notifyW nested updated s ls
+      ⟨r2.1, .optionsError, r1.2.1 ++ r2.2.1, []⟩
+
+def keyErr (r : NRes) : NRes :=
+  if r.out == .ok && !r.unknown.isEmpty then { r with out := .keyError } else r
+
+/-- the nested `opts.update(**kw)` a handler may issue, `d` more levels allowed (at 0 handlers no longer act) -/
+def nestedAt : Nat → List Listener → Store → List (Name × Val) → NRes
+  | 0, _, s, _ => ⟨s, .ok, [], []⟩
+  | d + 1, ls, s, kw => keyErr (coreUpdate (fun s' kw' => nestedAt d ls s' kw') ls s kw)
+
+/-- handlers issue nested updates at most this deep (the harness listeners use the same bound) -/
+def maxDepth : Nat := 2
+
+def withOpts (st : St) (r : NRes) : Res := ⟨{ st with opts := r.opts }, r.out, r.obs, r.unknown⟩
+
+def updateKnownN (st : St) (kw : List (Name × Val)) : Res :=
+  withOpts st (coreUpdate (nestedAt maxDepth st.listeners) st.listeners st.opts kw)
+
+def updateN (st : St) (kw : List (Name × Val)) : Res :=
+  let r := updateKnownN st kw
+  if r.out == .ok && !r.unknown.isEmpty then { r with out := .keyError } else r
+
+def updateDeferN (st : St) (kw : List (Name × Val)) : Res :=
+  let r := updateKnownN st kw
+  if r.out == .ok then
+    { r with st := { r.st with deferred := dictUpdate r.st.deferred (r.unknown.map fun kv => (kv.1, DVal.typed kv.2)) } }
+  else r
+
+def addOptionN (st : St) (n : Name) (ty : Ty) (d : Val) : Res :=
+  if !typeOk ty d then ⟨st, .typeError, [], []⟩
+  else
+    let r := notifyW (nestedAt maxDepth st.listeners) [n] (insertOpt st.opts n ⟨ty, d, d⟩) st.listeners
+    ⟨{ st with opts := r.1 }, if r.2.2 then .optionsError else .ok, r.2.1, []⟩
+
+def resetN (st : St) : Res :=
+  let opts := st.opts.map fun p => (p.1, { p.2 with cur := p.2.dflt })
+  let r := notifyW (nestedAt maxDepth st.listeners) (opts.map (·.1)) opts st.listeners
+  ⟨{ st with opts := r.1 }, if r.2.2 then .optionsError else .ok, r.2.1, []⟩
+
+def setSpecsN (st : St) (specs : List (Name × Option Bytes)) (defer : Bool) : Res :=
+  let g := groupSpecs specs
+  match parseAll st.opts g with
+  | none => ⟨st, .optionsError, [], []⟩
+  | some processed =>
+    let unk := g.filter (fun p => !hasKey st.opts p.1)
+    if defer then
+      let st1 := { st with deferred := dictUpdate st.deferred (unk.map fun p => (p.1, DVal.unconv p.2)) }
+      updateN st1 processed
+    else if !unk.isEmpty then ⟨st, .optionsError, [], []⟩
+    else updateN st processed
+
+def processDeferredN (st : St) : Res :=
+  match deferredValues st.opts st.deferred with
+  | none => ⟨st, .optionsError, [], []⟩
+  | some upd =>
+    let r := updateN st upd
+    if r.out == .ok then
+      { r with st := { r.st with deferred := r.st.deferred.filter fun p => !(upd.any (·.1 == p.1)) } }
+    else r
+
+def stepN (st : St) : Op → Res
+  | .addOption n ty d => addOptionN st n ty d
+  | .subscribe l => subscribe st l
+  | .update kw => updateN st kw
+  | .updateKnown kw => updateKnownN st kw
+  | .updateDefer kw => updateDeferN st kw
+  | .set specs defer => setSpecsN st specs defer
+  | .processDeferred => processDeferredN st
+  | .reset => resetN st
+
+def runFromN (st : St) : List Op → St × List Obs
+  | [] => (st, [])
+  | op :: r =>
+    let x := stepN st op
+    let y := runFromN x.st r
+    (y.1, x.obs ++ y.2)
+
+def runN (ops : List Op) : St × List Obs := runFromN St.empty ops
 
 /-! ### config file -/
 
